@@ -106,6 +106,14 @@ edit('syntax/parser.go', lambda s: s.replace("""		p.openNodes++
 func (p *Parser) doHeredocs() {"""))
 edit('syntax/parser.go', lambda s: s.replace('\tp.postNested(old)\n\tif _, ok := p.gotRsrv("]]"); !ok {','\tp.postNested(old)\n\ts.Cmd = tc\n\tif _, ok := p.gotRsrv("]]"); !ok {'))
 edit('syntax/printer.go', lambda s: renameIn(s,'func (p *Printer) nestedStmts(','closing','end'))
+# sixth batch: refactors around the later round-4 rules
+edit('syntax/simplify.go', lambda s: re.sub(r'\binIndex\b','indexNodes',s))
+edit('syntax/simplify.go', lambda s: re.sub(r'\bmarkIndex\b','noteIndex',s))
+edit('syntax/simplify.go', lambda s: re.sub(r'\bquoteSensitive\b','needsItsQuotes',s))
+edit('interp/vars.go', lambda s: s.replace('\t\tif prev.Map == nil {\n\t\t\tprev.Map = make(map[string]string)\n\t\t}','\t\tif nil == prev.Map {\n\t\t\tprev.Map = make(map[string]string)\n\t\t}'))
+edit('syntax/lexer.go', lambda s: s.replace('\t\tp.bsp = uint(len(p.bs)) + 1\n\t\tp.r = runeEOF\n','\t\tp.bsp = 1 + uint(len(p.bs))\n\t\tp.r = runeEOF\n'))
+edit('cmd/shfmt/main.go', lambda s: renameIn(s,'func formatStdin(','src','input'))
+edit('pattern/pattern.go', lambda s: s.replace('\t\t\tif sl.peekNext() != \')\' {','\t\t\tif \')\' != sl.peekNext() {'))
 PY
 GOFLAGS=-mod=mod GOPROXY=off go build ./...
 cd /verif
